@@ -16,6 +16,9 @@ import GeoProofs.Lemmas.C05PConvex
 import GeoProofs.Lemmas.C05PRotate
 import GeoProofs.Lemmas.C05PFloat
 import GeoProofs.Lemmas.TRANArea
+import GeoProofs.Lemmas.SMLXPivot
+import GeoProofs.Lemmas.SMLXMain
+import GeoProofs.Lemmas.SMLXSimpleEq
 import Mathlib.Tactic.NormNum
 
 namespace Geo.Proofs.C05
@@ -551,11 +554,12 @@ theorem pivotTriple_none_iff (r : List Pt) :
 
 /-! ### Winding order against the sign of the area
 
-Full statement (not proved; spec-adequacy assumption [S], tied by correspondence on thousands of
-non-convex simple rings per run): for every simple closed ring `r`,
+Full statement: for every simple closed ring `r`,
   windingOrder r = some .ccw ↔ 0 < shoelace2 r   and   windingOrder r = some .cw ↔ shoelace2 r < 0.
 It needs the global fact that the lexicographically least vertex of a simple polygon is strictly
-convex. Proved below for triangles, where every vertex is a valid pivot. -/
+convex, with the turn of the polygon's orientation. It is proved further down as
+`windingOrder_eq_sign_area_simple` (for `ringSimple` rings, no other hypothesis); first for triangles,
+where every vertex is a valid pivot, and for convex rings (fan argument). -/
 
 private theorem triangle_pivot (a b c : Pt) (hab : a ≠ b) (hbc : b ≠ c) (hca : c ≠ a) :
     ∃ pv p nx, pivotTriple [a, b, c, a] = some (pv, p, nx) ∧
@@ -692,8 +696,9 @@ private theorem shoelace2_short (r : List Pt) (hc : r.head? = r.getLast?) (hl : 
 /-- [T] `windingOrder_eq_sign_area_convex`: for every convex ring (no further hypothesis: open,
 short, flat rings, repeated coordinates and collinear vertices included) `winding_order` is the
 sign of the exact area computed by `twice_signed_ring_area`: counter-clockwise iff positive,
-clockwise iff negative, `None` iff zero. This is the convex case of the unproved full statement
-`windingOrder_eq_sign_area` (all simple rings). -/
+clockwise iff negative, `None` iff zero. This is the convex case of the full statement
+`windingOrder_eq_sign_area_simple` (all simple rings, proved below); it also covers convex rings
+that are not simple (flat, short, open). -/
 theorem windingOrder_eq_sign_area_convex (r : List Pt) (hcv : convexRing r) :
     (windingOrder r = some .ccw ↔ 0 < twiceSignedRingArea r) ∧
     (windingOrder r = some .cw ↔ twiceSignedRingArea r < 0) ∧
@@ -1003,6 +1008,230 @@ counter-clockwise, the other clockwise; the reported winding depends on the star
 theorem windingOrder_rotate_pinched_witness :
     let r : List Pt := [⟨0, 0⟩, ⟨2, 1⟩, ⟨2, 2⟩, ⟨0, 0⟩, ⟨1, 3⟩, ⟨2, 3⟩, ⟨0, 0⟩]
     windingOrder r = some .ccw ∧ windingOrder (rotate1 r) = some .cw := by
+  decide +kernel
+
+/-! ### Simple rings: `PivotOnce`, reversal, start vertex and `orient` without extra hypothesis
+
+`ringSimple` (GeoModel/Valid.lean) is the domain of the property ("all simple closed rings"): closed, at least
+three distinct vertices after merging repeated consecutive coordinates, edges meet only in the common vertex of
+consecutive ones. On that domain the hypothesis `PivotOnce` of the `_partial` theorems above is discharged: the
+merged ring visits every point once (GeoProofs/Lemmas/SMLXSimple.lean), so every point has one predecessor and
+one successor along the ring, and the pivot triple of `winding_order` — the least point with the two ring edges
+at it — is the same for every start vertex and is swapped by reversal (GeoProofs/Lemmas/SMLXPivot.lean).
+Repeated consecutive coordinates (for which `PivotOnce r` itself is false when the repeated point is the least
+one) are covered. -/
+
+/-- [T] `ringSimple r → PivotOnce (merged r)`: after merging repeated consecutive coordinates a simple ring
+visits its lexicographically least point once. -/
+theorem pivotOnce_of_simple (r : List Pt) (h : ringSimple r = true) : PivotOnce (dedupConsecutive r) :=
+  Geo.Proofs.SMLX.pivotOnce_dedup_of_simple h
+
+/-- [T] `ringSimple r → PivotOnce r` for a ring without repeated consecutive coordinates. (With a repeated
+least point, e.g. `[p, p, a, b, p]`, `PivotOnce r` is false although the ring is simple; the theorems below do
+not need it.) -/
+theorem pivotOnce_of_simple_norepeat (r : List Pt) (h : ringSimple r = true)
+    (hd : dedupConsecutive r = r) : PivotOnce r := by
+  have := pivotOnce_of_simple r h
+  rwa [hd] at this
+
+example : PivotOnce [⟨1, 0⟩, ⟨2, 2⟩, ⟨0, 1⟩, ⟨1, 0⟩] :=
+  pivotOnce_of_simple_norepeat _ (by decide +kernel) (by decide +kernel)
+
+/-- [T] `windingOrder_reverse` for simple rings (the full statement of `windingOrder_reverse_partial` on the
+property's domain): reversing a simple ring flips `winding_order`. -/
+theorem windingOrder_reverse_simple (r : List Pt) (h : ringSimple r = true) :
+    windingOrder r.reverse = (windingOrder r).map WO.flip :=
+  Geo.Proofs.SMLX.windingOrder_reverse_simple h
+
+/-- a simple ring whose least point is repeated (`PivotOnce` fails for it) -/
+example : windingOrder ([⟨0, 0⟩, ⟨0, 0⟩, ⟨3, 1⟩, ⟨1, 3⟩, ⟨0, 0⟩] : List Pt).reverse =
+    (windingOrder [⟨0, 0⟩, ⟨0, 0⟩, ⟨3, 1⟩, ⟨1, 3⟩, ⟨0, 0⟩]).map WO.flip :=
+  windingOrder_reverse_simple _ (by decide +kernel)
+
+/-- [T] `windingOrder_rotate` for simple rings (the full statement of `windingOrder_rotate_partial` on the
+property's domain): moving the start vertex of a simple ring by any number of steps does not change
+`winding_order`. -/
+theorem windingOrder_rotate_simple (k : Nat) (r : List Pt) (h : ringSimple r = true) :
+    windingOrder (rotateN k r) = windingOrder r :=
+  Geo.Proofs.SMLX.windingOrder_rotateN_simple k h
+
+example : windingOrder (rotateN 3 [⟨0, 0⟩, ⟨0, 0⟩, ⟨3, 1⟩, ⟨1, 3⟩, ⟨0, 0⟩]) =
+    windingOrder [⟨0, 0⟩, ⟨0, 0⟩, ⟨3, 1⟩, ⟨1, 3⟩, ⟨0, 0⟩] :=
+  windingOrder_rotate_simple 3 _ (by decide +kernel)
+
+/-- [T] `orient_post` for polygons whose rings are simple (the full statement of `orient_post_partial` on the
+property's domain; see `orient_exact_simple` below for the sharper form "equals the requested winding"). -/
+theorem orient_post_simple (d : Direction) (p : Poly) (he : ringSimple p.ext = true)
+    (hi : ∀ h ∈ p.ints, ringSimple h = true) :
+    windingOrder (orientPoly d p).ext ≠ some (WO.flip d.extW) ∧
+      ∀ h ∈ (orientPoly d p).ints, windingOrder h ≠ some (WO.flip d.intW) :=
+  orient_post_of_rev d p (by simp [SM.isClosed, Geo.Proofs.C12.closed_of_simple he])
+    (fun h hh => by simp [SM.isClosed, Geo.Proofs.C12.closed_of_simple (hi h hh)])
+    (windingOrder_reverse_simple _ he) (fun h hh => windingOrder_reverse_simple _ (hi h hh))
+
+example : windingOrder (orientPoly .reversed
+      ⟨[⟨0, 0⟩, ⟨0, 0⟩, ⟨0, 9⟩, ⟨9, 9⟩, ⟨9, 0⟩, ⟨0, 0⟩], [[⟨1, 1⟩, ⟨5, 2⟩, ⟨2, 5⟩, ⟨1, 1⟩]]⟩).ext ≠ some .ccw :=
+  (orient_post_simple .reversed _ (by decide +kernel) (by decide +kernel)).1
+
+/-- [T] `orient_idem` for polygons whose rings are simple (the full statement of `orient_idem_partial` on the
+property's domain). -/
+theorem orient_idem_simple (d : Direction) (p : Poly) (he : ringSimple p.ext = true)
+    (hi : ∀ h ∈ p.ints, ringSimple h = true) :
+    orientPoly d (orientPoly d p) = orientPoly d p :=
+  orient_idem_of_rev d p (by simp [SM.isClosed, Geo.Proofs.C12.closed_of_simple he])
+    (fun h hh => by simp [SM.isClosed, Geo.Proofs.C12.closed_of_simple (hi h hh)])
+    (windingOrder_reverse_simple _ he) (fun h hh => windingOrder_reverse_simple _ (hi h hh))
+
+example : orientPoly .default (orientPoly .default
+      ⟨[⟨0, 0⟩, ⟨0, 0⟩, ⟨0, 9⟩, ⟨9, 9⟩, ⟨9, 0⟩, ⟨0, 0⟩], [[⟨1, 1⟩, ⟨5, 2⟩, ⟨2, 5⟩, ⟨1, 1⟩]]⟩) =
+    orientPoly .default ⟨[⟨0, 0⟩, ⟨0, 0⟩, ⟨0, 9⟩, ⟨9, 9⟩, ⟨9, 0⟩, ⟨0, 0⟩], [[⟨1, 1⟩, ⟨5, 2⟩, ⟨2, 5⟩, ⟨1, 1⟩]]⟩ :=
+  orient_idem_simple _ _ (by decide +kernel) (by decide +kernel)
+
+/-! ### Winding order against the sign of the area: every simple ring
+
+The full statement announced at the top of the triangle section. Proof (GeoProofs/Lemmas/SMLX*.lean, on top of
+the Jordan-curve lemmas of the WIND files): a simple ring has a side constant `L ∈ {0, 1}` — beside every point
+of the ring the left face sample has winding number `L`, the right one `L − 1` (`simple_faces`).
+(1) *Area.* On a closed ring `Σ det = Σ (a.x + b.x)(b.y − a.y)`; cutting every trapezoid at the ordinates of all
+coordinates turns the sum into `Σ_slabs 2·height·F(middle level)`, `F(y) = Σ_crossings ±abscissa`
+(`shoelace2_slabs`; exact because a crossing abscissa is linear in the level). On a level that avoids the
+coordinates the signed count of the crossings from a crossing on is the winding number just left of it, `L` or
+`L − 1` by the direction of the edge (`crossing_suffix`), and summation by parts over the sorted crossings gives
+`(2L − 1)·F(y) > 0` (`level_sign`), hence `(2L − 1)·area > 0` (`area_sign`).
+(2) *Pivot.* In the slab just above (or below) the least coordinate `p` two edges cannot exchange their
+left-to-right order without meeting (`no_cross`), so the left-most crossing of its middle level is on an edge that
+ends at `p`; the left-most crossing has the exterior on its left, which gives `L` from the direction of that
+edge, and `(2L − 1)·cross pv p nx > 0` follows (`pivot_side`). -/
+
+/-- [T] `windingOrder_eq_sign_area`: **for every simple closed ring `winding_order` is CounterClockwise exactly
+when the exact area computed by `twice_signed_ring_area` is positive, Clockwise exactly when it is negative; it
+is never `None` and the area is never 0.** Repeated consecutive coordinates are allowed (`ringSimple` merges
+them). -/
+theorem windingOrder_eq_sign_area_simple (r : List Pt) (h : ringSimple r = true) :
+    (windingOrder r = some .ccw ↔ 0 < twiceSignedRingArea r) ∧
+    (windingOrder r = some .cw ↔ twiceSignedRingArea r < 0) ∧
+    windingOrder r ≠ none ∧ twiceSignedRingArea r ≠ 0 := by
+  have hc := Geo.Proofs.C12.closed_of_simple h
+  have hcl : ringClosed r = true := by simp [ringClosed, hc]
+  have hlen := Geo.Proofs.SMLX.simple_length h
+  rw [twice_closed r hc]
+  obtain ⟨pv, p, nx, hp, hs⟩ := Geo.Proofs.SMLX.simple_pivot_area h
+  have hccw : windingOrder r = some .ccw ↔ 0 < cross pv p nx := by
+    rw [windingOrder_ccw_iff]
+    constructor
+    · rintro ⟨_, _, pv', p', nx', hp', hc'⟩
+      rw [hp] at hp'; cases hp'; exact hc'
+    · intro h; exact ⟨by omega, hcl, pv, p, nx, hp, h⟩
+  have hcw : windingOrder r = some .cw ↔ cross pv p nx < 0 := by
+    rw [windingOrder_cw_iff]
+    constructor
+    · rintro ⟨_, _, pv', p', nx', hp', hc'⟩
+      rw [hp] at hp'; cases hp'; exact hc'
+    · intro h; exact ⟨by omega, hcl, pv, p, nx, hp, h⟩
+  rcases hs with ⟨c1, c2⟩ | ⟨c1, c2⟩
+  · have hw := hccw.2 c1
+    refine ⟨⟨fun _ => c2, fun _ => hw⟩, ⟨fun h' => ?_, fun h' => by linarith⟩, by rw [hw]; simp, ne_of_gt c2⟩
+    rw [hw] at h'; cases h'
+  · have hw := hcw.2 c1
+    refine ⟨⟨fun h' => ?_, fun h' => by linarith⟩, ⟨fun _ => c2, fun _ => hw⟩, by rw [hw]; simp, ne_of_lt c2⟩
+    rw [hw] at h'; cases h'
+
+/-- [T] the two definitions of "simple closed ring" are one Boolean function: `simpleRing`
+(GeoModel/SimpleRing.lean — CLRS orientation tests on the array of merged coordinates; the definition the C05
+driver uses to decide whether a ring is in the domain of the winding clauses) equals `ringSimple`
+(GeoModel/Valid.lean — `line_intersection` / `Line: Intersects<Line>` on the merged segments; the domain of the
+topological properties, for which the lemmas are proved). Pair by pair: `segsMeet a b c d` ⇔ the closed segments
+share a point ⇔ `lineLine`; `foldsBack` ⇔ two consecutive segments share more than their common end ⇔
+`¬ adjacentOk`. -/
+theorem simpleRing_eq_ringSimple (r : List Pt) : simpleRing r = ringSimple r :=
+  Geo.Proofs.SMLX.simpleRing_eq_ringSimple r
+
+/-- [T] `windingOrder_eq_sign_area`, **the winding clause of the property exactly as the driver evaluates it**: for
+every ring the driver classifies as simple (`simpleRing r = true`), `winding_order` is CounterClockwise iff the
+exact area is positive, Clockwise iff it is negative, never `None`. -/
+theorem windingOrder_eq_sign_area (r : List Pt) (h : simpleRing r = true) :
+    (windingOrder r = some .ccw ↔ 0 < twiceSignedRingArea r) ∧
+    (windingOrder r = some .cw ↔ twiceSignedRingArea r < 0) ∧
+    windingOrder r ≠ none ∧ twiceSignedRingArea r ≠ 0 :=
+  windingOrder_eq_sign_area_simple r (by rw [← simpleRing_eq_ringSimple]; exact h)
+
+example : windingOrder [⟨0, 0⟩, ⟨4, 0⟩, ⟨4, 4⟩, ⟨2, 1⟩, ⟨0, 4⟩, ⟨0, 0⟩] = some .ccw := by
+  rw [(windingOrder_eq_sign_area _ (by decide +kernel)).1, twice_eq_shoelace _ (by decide)]
+  norm_num [shoelace2, det]
+
+/-- a non-convex simple ring (an arrow head), given clockwise, with a repeated coordinate -/
+example : windingOrder [⟨0, 0⟩, ⟨2, 1⟩, ⟨0, 4⟩, ⟨0, 4⟩, ⟨6, 1⟩, ⟨0, 0⟩] = some .cw := by
+  rw [(windingOrder_eq_sign_area_simple _ (by decide +kernel)).2.1, twice_eq_shoelace _ (by decide)]
+  norm_num [shoelace2, det]
+
+private theorem toWinding_exact (w : WO) (r : List Pt) (h : ringSimple r = true) :
+    windingOrder (toWinding w r) = some w := by
+  obtain ⟨_, _, hne, _⟩ := windingOrder_eq_sign_area_simple r h
+  have hrev := windingOrder_reverse_simple r h
+  cases w
+  · simp only [toWinding, makeCw]
+    split
+    · rename_i hw; rw [hrev, hw]; rfl
+    · rename_i hw
+      cases hwo : windingOrder r with
+      | none => exact absurd hwo hne
+      | some w' => cases w' <;> simp_all
+  · simp only [toWinding, makeCcw]
+    split
+    · rename_i hw; rw [hrev, hw]; rfl
+    · rename_i hw
+      cases hwo : windingOrder r with
+      | none => exact absurd hwo hne
+      | some w' => cases w' <;> simp_all
+
+/-- [T] `orient_exact`: **for a polygon whose rings are simple, `orient` returns the exterior with exactly the
+requested winding and every hole with the opposite one** (`Direction::Default`: exterior counter-clockwise,
+holes clockwise; `Reversed`: the other way round) — the sharp form of `orient_post`. -/
+theorem orient_exact_simple (d : Direction) (p : Poly) (he : ringSimple p.ext = true)
+    (hi : ∀ h ∈ p.ints, ringSimple h = true) :
+    windingOrder (orientPoly d p).ext = some d.extW ∧
+      ∀ h ∈ (orientPoly d p).ints, windingOrder h = some d.intW := by
+  constructor
+  · show windingOrder (SM.close (toWinding d.extW p.ext)) = _
+    rw [close_toWinding_eq _ _ (by simp [SM.isClosed, Geo.Proofs.C12.closed_of_simple he])]
+    exact toWinding_exact _ _ he
+  · intro h hh
+    simp only [orientPoly, List.map_map, List.mem_map, Function.comp] at hh
+    obtain ⟨a, ha, rfl⟩ := hh
+    rw [close_toWinding_eq _ _ (by simp [SM.isClosed, Geo.Proofs.C12.closed_of_simple (hi a ha)])]
+    exact toWinding_exact _ _ (hi a ha)
+
+example : windingOrder (orientPoly .default
+      ⟨[⟨0, 0⟩, ⟨0, 9⟩, ⟨9, 9⟩, ⟨9, 0⟩, ⟨0, 0⟩], [[⟨1, 1⟩, ⟨5, 2⟩, ⟨2, 5⟩, ⟨1, 1⟩]]⟩).ext = some .ccw :=
+  (orient_exact_simple .default _ (by decide +kernel) (by decide +kernel)).1
+
+/-- [T] the area of a simple ring is positive exactly when `winding_order` says counter-clockwise. -/
+theorem ringArea_pos_iff_ccw_simple (r : List Pt) (h : ringSimple r = true) :
+    0 < ringArea r ↔ windingOrder r = some .ccw := by
+  rw [(windingOrder_eq_sign_area_simple r h).1]
+  unfold ringArea
+  constructor <;> intro h' <;> linarith
+
+example : 0 < ringArea [⟨0, 0⟩, ⟨4, 0⟩, ⟨4, 4⟩, ⟨2, 1⟩, ⟨0, 4⟩, ⟨0, 0⟩] := by
+  rw [ringArea_pos_iff_ccw_simple _ (by decide +kernel)]
+  decide +kernel
+
+/-- [T] `polygonArea_pos_iff_ccw`: **`signed_area` of a polygon is positive exactly when its exterior is
+counter-clockwise** (and negative exactly when it is clockwise), for a simple exterior ring not outweighed by the
+holes (true of every valid polygon: the holes lie inside the shell). -/
+theorem polygonArea_pos_iff_ccw (p : Poly) (he : simpleRing p.ext = true)
+    (hw : sumRat (p.ints.map (fun h => rabs (ringArea h))) < rabs (ringArea p.ext)) :
+    (0 < p.signedArea ↔ windingOrder p.ext = some .ccw) ∧
+    (p.signedArea < 0 ↔ windingOrder p.ext = some .cw) := by
+  obtain ⟨h1, h2, _, _⟩ := windingOrder_eq_sign_area p.ext he
+  obtain ⟨s1, s2⟩ := polygonArea_sign p hw
+  rw [s1, s2, h1, h2]
+  unfold ringArea
+  constructor <;> constructor <;> intro h' <;> linarith
+
+example : 0 < (Poly.mk [⟨0, 0⟩, ⟨4, 0⟩, ⟨4, 4⟩, ⟨2, 1⟩, ⟨0, 4⟩, ⟨0, 0⟩] []).signedArea := by
+  rw [(polygonArea_pos_iff_ccw _ (by decide +kernel) (by
+    norm_num [sumRat, ringArea, twiceSignedRingArea, shiftedDets, det, rabs])).1]
   decide +kernel
 
 /-! ### Convex rings: reversal, `orient` without `PivotOnce`
